@@ -25,6 +25,7 @@ import (
 	"github.com/olive-io/bpmn/v2/pkg/data"
 	"github.com/olive-io/bpmn/v2/pkg/event"
 	"github.com/olive-io/bpmn/v2/pkg/tracing"
+	"github.com/olive-io/bpmn/v2/pkg/verifhook"
 )
 
 type ProcessSet struct {
@@ -108,6 +109,7 @@ func (ps *ProcessSet) StartAll(ctx context.Context) error {
 
 		ps.wg.Add(1)
 		go ps.tracerProcess(ctx, process, &ps.wg)
+		verifhook.Point("pset.afterstart")
 	}
 
 	return nil
@@ -118,6 +120,7 @@ func (ps *ProcessSet) StartAll(ctx context.Context) error {
 func (ps *ProcessSet) WaitUntilComplete(ctx context.Context) (complete bool) {
 	go func() {
 		ps.wg.Wait()
+		verifhook.Point("pset.waited")
 		close(ps.done)
 	}()
 	select {
@@ -177,6 +180,7 @@ func (ps *ProcessSet) run(ctx context.Context) {
 func (ps *ProcessSet) tracerProcess(ctx context.Context, process *Process, wg *sync.WaitGroup) {
 	defer wg.Done()
 
+	verifhook.Point("pset.beforesub")
 	traces := process.Tracer().Subscribe()
 	defer process.tracer.Unsubscribe(traces)
 
